@@ -2,6 +2,7 @@ import FedjaxVerif.Model.Shakespeare
 import FedjaxVerif.Model.Emnist
 import FedjaxVerif.Model.Cifar
 import FedjaxVerif.Model.Labels
+import FedjaxVerif.Model.Stackoverflow
 import Mathlib.Algebra.Order.Field.Basic
 import Mathlib.Tactic.Ring
 import Mathlib.Tactic.Linarith
@@ -22,7 +23,10 @@ Theorems about the models of
   and maps a constant image to 0 — over every linearly ordered field with a square root, and
   over `ℝ` with `Real.sqrt`;
 * the label-id agreement predicate evaluated by the driver on introspected constants
-  (`Model/Labels.lean`).
+  (`Model/Labels.lean`);
+* `fedjax/datasets/stackoverflow.py: DefaultWordTokenizer` (`Model/Stackoverflow.lean`) — layout,
+  shift, truncation at the preprocessor's own `max_length`, label range; word splitting and the
+  vocabulary look-up are externals (the sentence enters as its look-up results).
 
 Not modelled (monitored by the harness only): row independence of the haiku networks.
 -/
@@ -538,6 +542,95 @@ theorem C20_labels_agree (d : DatasetIds) (m : ModelIds) :
       simp [metricAgrees, isSpecial, hset, and_assoc, or_assoc]
 
 
+/-! ## StackOverflow word tokeniser (one sentence, one `max_length`) -/
+
+theorem so_toDense_length (L : Nat) (r : List Nat) : (Stackoverflow.toDense L r).length = L := by
+  simp [Stackoverflow.toDense]; omega
+
+/-- Layout: both rows have exactly this preprocessor's `max_length`; `x` is `Stackoverflow.BOS, words+3`
+cut/padded, `y` is `words+3, Stackoverflow.EOS` cut/padded. -/
+theorem C20_so_layout (nv L : Nat) (ws : List (Option Nat)) :
+    (Stackoverflow.tokenize nv L ws).1.length = L ∧ (Stackoverflow.tokenize nv L ws).2.length = L ∧
+    (Stackoverflow.tokenize nv L ws).1 = Stackoverflow.toDense L (Stackoverflow.BOS :: ws.map (fun w => Stackoverflow.lookup nv w + 3)) ∧
+    (Stackoverflow.tokenize nv L ws).2 = Stackoverflow.toDense L (ws.map (fun w => Stackoverflow.lookup nv w + 3) ++ [Stackoverflow.EOS]) := by
+  refine ⟨so_toDense_length _ _, so_toDense_length _ _, ?_, ?_⟩
+  · simp only [Stackoverflow.tokenize, Stackoverflow.tokenIds]
+    congr 1
+    rw [← List.cons_append, List.dropLast_concat]
+  · simp [Stackoverflow.tokenize, Stackoverflow.tokenIds]
+
+/-- targets are inputs shifted by one inside the kept, unpadded part -/
+theorem C20_so_shift (nv L : Nat) (ws : List (Option Nat)) (t : Nat)
+    (ht : t + 1 < L) (hw : t + 1 ≤ ws.length) :
+    (Stackoverflow.tokenize nv L ws).2[t]? = (Stackoverflow.tokenize nv L ws).1[t + 1]? ∧
+    (Stackoverflow.tokenize nv L ws).2[t]? = (ws[t]?).map (fun w => Stackoverflow.lookup nv w + 3) := by
+  obtain ⟨_, _, hx, hy⟩ := C20_so_layout nv L ws
+  rw [hx, hy]
+  simp only [Stackoverflow.toDense]
+  have h1 : t < ((ws.map (fun w => Stackoverflow.lookup nv w + 3) ++ [Stackoverflow.EOS]).take L).length := by
+    simp; omega
+  have h2 : t + 1 < ((Stackoverflow.BOS :: ws.map (fun w => Stackoverflow.lookup nv w + 3)).take L).length := by
+    simp; omega
+  rw [List.getElem?_append_left h1, List.getElem?_append_left h2]
+  rw [List.getElem?_take, List.getElem?_take, if_pos (by omega), if_pos ht]
+  rw [List.getElem?_cons_succ, List.getElem?_append_left (by simp; omega)]
+  simp
+
+/-- truncation at `max_length`: a sentence of `n` words keeps its Stackoverflow.EOS iff `n + 1 ≤ L`; then the
+row is `words, Stackoverflow.EOS, Stackoverflow.PAD…`; otherwise the row is the first `L` word labels (no Stackoverflow.EOS, no Stackoverflow.PAD). -/
+theorem C20_so_truncation (nv L : Nat) (ws : List (Option Nat)) :
+    (ws.length + 1 ≤ L →
+      (Stackoverflow.tokenize nv L ws).2 = ws.map (fun w => Stackoverflow.lookup nv w + 3) ++ Stackoverflow.EOS ::
+        List.replicate (L - (ws.length + 1)) Stackoverflow.PAD) ∧
+    (L < ws.length + 1 →
+      (Stackoverflow.tokenize nv L ws).2 = (ws.map (fun w => Stackoverflow.lookup nv w + 3)).take L ∧
+      Stackoverflow.EOS ∉ (Stackoverflow.tokenize nv L ws).2 ∧ Stackoverflow.PAD ∉ (Stackoverflow.tokenize nv L ws).2) := by
+  obtain ⟨_, _, _, hy⟩ := C20_so_layout nv L ws
+  constructor
+  · intro h
+    rw [hy, Stackoverflow.toDense, List.take_of_length_le (by simp; omega)]
+    simp
+  · intro h
+    have hy' : (Stackoverflow.tokenize nv L ws).2 = (ws.map (fun w => Stackoverflow.lookup nv w + 3)).take L := by
+      rw [hy, Stackoverflow.toDense, List.take_append_of_le_length (by simp; omega)]
+      have : L - (ws.map (fun w => Stackoverflow.lookup nv w + 3) ++ [Stackoverflow.EOS]).length = 0 := by simp; omega
+      rw [this]; simp
+    refine ⟨hy', ?_, ?_⟩ <;>
+    · rw [hy']
+      intro hmem
+      have := List.mem_of_mem_take hmem
+      simp only [List.mem_map] at this
+      obtain ⟨w, _, hw⟩ := this
+      have h2 : Stackoverflow.EOS = 2 := rfl
+      have h0 : Stackoverflow.PAD = 0 := rfl
+      omega
+
+/-- every label is below the vocabulary size `nv + 4` (ids of in-vocabulary words `< nv`) -/
+theorem C20_so_range (nv L : Nat) (ws : List (Option Nat)) (hws : ∀ i, some i ∈ ws → i < nv) :
+    (∀ v ∈ (Stackoverflow.tokenize nv L ws).1, v < nv + 4) ∧ (∀ v ∈ (Stackoverflow.tokenize nv L ws).2, v < nv + 4) := by
+  have hl : ∀ w ∈ ws, Stackoverflow.lookup nv w + 3 < nv + 4 := by
+    intro w hw
+    cases w with
+    | none => simp [Stackoverflow.lookup]
+    | some i => have := hws i hw; simp [Stackoverflow.lookup]; omega
+  have hids : ∀ v ∈ Stackoverflow.tokenIds nv ws, v < nv + 4 := by
+    intro v hv
+    simp only [Stackoverflow.tokenIds, List.mem_cons, List.mem_append, List.mem_map, List.not_mem_nil,
+      or_false] at hv
+    rcases hv with rfl | ⟨w, hw, rfl⟩ | rfl
+    · simp [Stackoverflow.BOS]
+    · exact hl w hw
+    · simp [Stackoverflow.EOS]
+  have hd : ∀ (r : List Nat), (∀ v ∈ r, v < nv + 4) → ∀ v ∈ Stackoverflow.toDense L r, v < nv + 4 := by
+    intro r hr v hv
+    simp only [Stackoverflow.toDense, List.mem_append, List.mem_replicate] at hv
+    rcases hv with h | ⟨_, rfl⟩
+    · exact hr v (List.mem_of_mem_take h)
+    · simp [Stackoverflow.PAD]
+  exact ⟨hd _ (fun v hv => hids v (List.dropLast_subset _ hv)),
+         hd _ (fun v hv => hids v (List.mem_of_mem_tail hv))⟩
+
+
 /-! ## Non-vacuity: concrete instances meeting the hypotheses -/
 
 /-- a table with values in `[3, 90)` like the real one -/
@@ -607,5 +700,13 @@ example : labelsAgree exShk ⟨90, [⟨[0, 2], some (90, [0, 1, 2, 89]), none, n
 /-- … and the unrepaired one (`bos = 87, eos = 88`, DESIGN §6 row 17) does not. -/
 example : labelsAgree exShk ⟨90, [⟨[0, 88], some (90, [0, 87, 88, 89]), none, none⟩,
     ⟨[0], none, some [89], none⟩]⟩ = false := by decide
+
+-- StackOverflow tokeniser: padding, truncation, OOV
+example : Stackoverflow.tokenize 3 4 [some 0, none, some 2] = ([1, 3, 6, 5], [3, 6, 5, 2]) := by decide
+example : Stackoverflow.tokenize 3 2 [some 0, none, some 2] = ([1, 3], [3, 6]) := by decide
+example : Stackoverflow.tokenize 3 6 [some 0] = ([1, 3, 0, 0, 0, 0], [3, 2, 0, 0, 0, 0]) := by decide
+example := C20_so_shift 3 4 [some 0, none, some 2] 2 (by decide) (by decide)
+example := (C20_so_truncation 3 2 [some 0, none, some 2]).2 (by decide)
+example := C20_so_range 3 4 [some 0, none, some 2] (by simp)
 
 end FedjaxVerif.C20
